@@ -30,6 +30,7 @@ def run(ctx, tier):
     r_kern = RuleResult('C01.kernel', 'motion checkers answer true only after the end point was accepted')
     r_gate = RuleResult('C01.gate', 'Ok is returned only after the start state was accepted; rejection => InvalidStartState')
     r_root = RuleResult('C01.root', 'tree roots are start states or validated states')
+    r_rechk = RuleResult('C01.recheck', 'replacing the validity checker discards every node accepted by the previous checker')
     planners = ctx.planners()
     if len(planners) < 4:
         r_admit.violations.append(Violation('C01', 'C01.admit', 'oxmpl', 'floor', 'only %d planners discovered (floor 4)' % len(planners)))
@@ -142,9 +143,45 @@ def run(ctx, tier):
                 if not ok:
                     r_gate.violations.append(Violation('C01', 'C01.gate', b.path, 'ok-return', why, loc=fn.loc(ob, osi), ordinal=o))
 
+        # ------------------------------------------------------------ C01.recheck
+        vcf = [f['name'] for f in p['fields'] if 'StateValidityChecker' in f['ty']]
+        n_w = 0
+        for b in p['methods']:
+            if b.name == 'new':
+                continue
+            fn = ctx.fn(b)
+            writes = []
+            for bi, blk in enumerate(b.blocks):
+                if blk['cleanup']:
+                    continue
+                for si, st in enumerate(blk['stmts']):
+                    if st['k'] == 'assign' and st['place']['l'] == 1 and any(e == 'deref' for e in st['place']['p']):
+                        names = [e.get('name') for e in st['place']['p'] if isinstance(e, dict) and 'f' in e]
+                        if len(names) == 1 and names[0] in vcf:
+                            writes.append((bi, si))
+            if not writes:
+                continue
+            n_w += 1
+            for cname in p['containers']:
+                cont = T(('field', T(('param', 1, 'self')), cname))
+                clears = {bi for bi, t in b.calls() if t['func'].get('path') == 'std::vec::Vec::<T, A>::clear' and
+                          fn.place_terms((t['args'][0].get('move') or t['args'][0].get('copy')), (bi, fn.nstmts(bi)), mut_kills=False) == cont}
+                # every path from entry to a return passes a clear of this container
+                reach = fn.reachable(0, stop=frozenset(clears))
+                ok = bool(clears) and not any(rb in reach and rb not in clears for rb in fn.return_blocks())
+                r_rechk.inst('%s: installing a checker clears self.%s on every path' % (b.path, cname), ok=ok, site=b.loc(writes[0][0], writes[0][1]))
+                if not ok:
+                    r_rechk.violations.append(Violation(
+                        'C01', 'C01.recheck', b.path, 'keep:' + cname,
+                        'the validity checker is replaced while nodes accepted by the previous checker can stay in self.%s '
+                        '(no unconditional clear): a later query can return states the current checker never saw' % cname,
+                        loc=b.loc(writes[0][0], writes[0][1])))
+        if n_w < 1:
+            r_rechk.violations.append(Violation('C01', 'C01.recheck', p['adt'], 'floor', 'no function installs a validity checker in %s' % p['name']))
+
         # ------------------------------------------------------------ C01.prov
         _prov(ctx, p, r_prov)
-    return [r_prov, r_admit, r_kern, r_gate, r_root]
+    return [r_prov, r_admit, r_kern, r_gate, r_root, r_rechk]
 
 
 def _root_gated_in_solve(ctx, p, vqs, cnames):
